@@ -62,7 +62,8 @@ class Renderer:
     k = e[0]
     if k == "sig": return self.ref(e[1])
     if k == "const": return f"{bits_t(e[1])}({e[2]})" if e[1] < 256 else f"mk_bits({e[1]})({e[2]})"
-    if k == "lit": return str(e[1])
+    if k == "lit": return str(e[1]) if e[1] >= 0 else f"(-{-e[1]})"
+    if k == "cast": return f"{bits_t(e[1])}( {self.ex(e[2])} )"
     if k == "lv": return e[1]
     if k == "tmp": return e[1]
     if k == "tmpsl": return f"{e[1]}[{e[2]}:{e[3]}]"
